@@ -1209,6 +1209,35 @@ func (s *PrintCtx) pcAppendStringKeyPrefixed(str, prefix string) {
 // 	s.pcAppendStringValue(string(val))
 // }
 
+// dumpSafe makes an error text fit for the multi-line dump below: its
+// line breaks are kept, tabs are expanded, and every other control byte
+// (ESC, CR, BEL, DEL, ...) is written as a Go escape, so that the text
+// of an error can't send raw control sequences to the terminal.
+func dumpSafe(txt string) string {
+	clean := true
+	for i := 0; i < len(txt); i++ {
+		if c := txt[i]; (c < 0x20 && c != '\n') || c == 0x7f {
+			clean = false
+			break
+		}
+	}
+	if clean {
+		return txt
+	}
+	buf := make([]byte, 0, len(txt)+16)
+	for i := 0; i < len(txt); i++ {
+		switch c := txt[i]; {
+		case c == '\t':
+			buf = append(buf, "    "...)
+		case (c < 0x20 && c != '\n') || c == 0x7f:
+			buf = append(buf, '\\', 'x', "0123456789abcdef"[c>>4], "0123456789abcdef"[c&15])
+		default:
+			buf = append(buf, c)
+		}
+	}
+	return string(buf)
+}
+
 func (s *PrintCtx) appendErrorAfterPrinted(err error) {
 	if err != nil && (inTesting || isDebug || isDebugging) {
 		if s.jsonMode {
@@ -1229,9 +1258,9 @@ func (s *PrintCtx) appendErrorAfterPrinted(err error) {
 					s.cachedSource.Extract(uintptr(frame))
 					s.pcAppendStringKey("       error: ")
 					if s.noColor {
-						s.pcAppendString(f.Error())
+						s.pcAppendString(dumpSafe(f.Error()))
 					} else {
-						ct.wrapColorAndBgTo(s, clrError, clrNone, f.Error())
+						ct.wrapColorAndBgTo(s, clrError, clrNone, dumpSafe(f.Error()))
 					}
 					s.pcAppendByte('\n')
 					s.pcAppendStringKey("   file/line: ")
@@ -1266,7 +1295,7 @@ func (s *PrintCtx) appendErrorAfterPrinted(err error) {
 			// 	}
 			// }
 			s.pcAppendByte('\n')
-			txt := ct.pad(stackInfo, "    ", 1)
+			txt := ct.pad(dumpSafe(stackInfo), "    ", 1)
 			if s.noColor {
 				s.pcAppendString(txt)
 			} else {
